@@ -112,6 +112,11 @@ def judgeDecode (d : DictRt) (bs : Bytes) (impl : List String) : Judged :=
              | some (a, wire) => c01WireCause a wire
              | none => "C01:wire-roundtrip")
           | _ => "C01:wire-roundtrip"
+        -- a recorded finding is the behaviour the model exhibits; an image that differs from the
+        -- model's as well is something else, even at one of the recorded Address shapes
+        let cause := match m with
+          | .ok msg => if reser = toHex msg.enc then cause else cause ++ ":image-differs-from-recorded-behaviour"
+          | _ => cause
         fails := cause :: fails
     return { model := modelOut, fails := fails.reverse, tags := tags.reverse,
              nontrivial := m.isOk || bs.length ≥ 28 }
